@@ -60,7 +60,7 @@ for lane in "${lanes[@]}"; do
       LOG="$OUT/valgrind.log"; mkdir -p "$OUT/vg-evidence"
       DIV=12; [ "$PROP" = "C05" ] && DIV=2
       CMD="valgrind -q --error-exitcode=9 --errors-for-leak-kinds=definite --leak-check=full $ROOT/harness/target/release/nxverif $PROP quick"
-      VERIF_THREADS=4 VERIF_CASES_DIV=$DIV VERIF_EVIDENCE_DIR="$OUT/vg-evidence" VERIF_REPLAY_DIR="$OUT" VERIF_WATCHDOG_S=1500 \
+      VERIF_GUARD_ALLOC=0 VERIF_THREADS=4 VERIF_CASES_DIV=$DIV VERIF_EVIDENCE_DIR="$OUT/vg-evidence" VERIF_REPLAY_DIR="$OUT" VERIF_WATCHDOG_S=1500 \
         valgrind -q --error-exitcode=9 --errors-for-leak-kinds=definite --leak-check=full --log-file="$OUT/valgrind.memcheck" \
         "$ROOT/harness/target/release/nxverif" "$PROP" quick > "$LOG" 2>&1
       LRC=$?
@@ -90,7 +90,7 @@ for lane in "${lanes[@]}"; do
       INSTR=$(find "$ROOT/harness/target-asan" -name 'libbz2.a' | head -1 | xargs -r nm 2>/dev/null | grep -c '__asan_' || true)
       CMD="ASAN_OPTIONS=halt_on_error=1:abort_on_error=0:detect_leaks=1:exitcode=66 $BIN $PROP quick"
       ASAN_OPTIONS="halt_on_error=1:abort_on_error=0:detect_leaks=1:exitcode=66:log_path=$OUT/asan-report" \
-        VERIF_CASES_DIV=2 VERIF_EVIDENCE_DIR="$OUT/asan-evidence" VERIF_REPLAY_DIR="$OUT" "$BIN" "$PROP" quick > "$LOG" 2>&1
+        VERIF_GUARD_ALLOC=0 VERIF_CASES_DIV=2 VERIF_EVIDENCE_DIR="$OUT/asan-evidence" VERIF_REPLAY_DIR="$OUT" "$BIN" "$PROP" quick > "$LOG" 2>&1
       LRC=$?
       REPORTS=$(ls "$OUT"/asan-report.* 2>/dev/null | wc -l)
       INPUTS=$(evals_of "$OUT/asan-evidence/$PROP.json")
